@@ -1,6 +1,7 @@
 import SynapModel.Proto
 import SynapModel.Ops
 import SynapModel.Drv.Layers
+import SynapModel.Drv.Ctors
 /-! driver commands for tensor programs (engine, ops), scalar type `Float` -/
 namespace Synap.Drv.Tensor
 open Synap Synap.Proto Synap.Api Synap.Ops Synap.Np Synap.Engine
@@ -174,6 +175,10 @@ def run (s : St) (toks : List String) : St × String :=
       else match ctorFull s.ts args v with
         | some (ts, k) => ({ s with ts := ts }, s!"t{k}") | none => (s, "rejected")
     | none => (s, "bad-op")
+  -- mk <kind> <spelling> <A> <B> <dtype> <requires_grad> : a constructor CALL with every argument position (Drv/Ctors.lean)
+  | "mk" :: rest =>
+    let (ts, out) := Drv.Ctors.run s.ts rest
+    ({ s with ts := ts }, out)
   | ["eye", n] =>
     match (parseNat? n).bind (ctorEye s.ts) with
     | some (ts, k) => ({ s with ts := ts }, s!"t{k}") | none => (s, "rejected")
